@@ -21,7 +21,9 @@ var (
 	pInts    = []string{"0", "1", "-1", "12", "-305", "7000000"}
 	pFloats  = []string{"2.50", "-0.5", "10.0", "0.00", "3.14159"}
 	pStrings = []string{`"a"`, `""`, `"a\"b"`, `"\\"`, `"é"`, `"é😀"`, `"a b"`, `"\n\t"`, `"/"`, `"\/"`, `"#x"`, `"// no comment"`, `"{x: 1}"`, `"@t"`, `"a|b"`, `"[,]:"`}
-	pKeys    = []string{`"k"`, `"a\"b"`, `"\\"`, `"é"`, `" "`, `"a/b"`, `"#"`, `"@x"`, `"key two"`, `"A"`, `"\t"`, `"1"`, `""`, `"//"`, `"{"`, `"a:b"`}
+	pKeys    = []string{`"k"`, `"a\"b"`, `"\\"`, `"é"`, `" "`, `"a/b"`, `"#"`, `"@x"`, `"key two"`, `"\u0041"`, `"\t"`, `"1"`, `""`, `"//"`, `"{"`, `"a:b"`,
+		// escape spellings Go quoting and JSON quoting disagree on, or that a re-quoting would re-spell
+		`"\u0001"`, `"a\u000bb"`, `"\u001f"`, `"\u007f"`, `"\/"`, `"\ud83d\ude00"`, `"\udb40\udc01"`, `"\u0000"`, `"\u00e9\b\f"`, `"\u2028"`}
 )
 
 func pScalar(r *rand.Rand) *pnode {
